@@ -592,7 +592,13 @@ func genTable(cfg Config, emit func(string, bool, []string)) {
 				case x < 50:
 					g.add("cas %s %s %s", tn, specs[r.IntN(len(specs))], g.obj(tn))
 				case x < 62:
-					g.add("del %s %s", tn, hx([]byte(g.id())))
+					did := g.id()
+					g.add("del %s %s", tn, hx([]byte(did)))
+					if r.IntN(3) == 0 {
+						// the deleted object must be gone for point and prefix queries through the id index too
+						g.add("get w %s id %s", tn, hx([]byte(did)))
+						g.add("prefix w %s id %s", tn, hx([]byte(did)))
+					}
 				case x < 68:
 					g.add("cad %s %s %s", tn, specs[r.IntN(len(specs))], hx([]byte(g.id())))
 				case x < 70:
@@ -622,8 +628,15 @@ func genTable(cfg Config, emit func(string, bool, []string)) {
 					if withInit && len(g.liveDones) > 0 {
 						g.add("initdone %d", g.liveDones[r.IntN(len(g.liveDones))])
 					}
-				case x < 98:
+				case x < 97:
 					g.add("inited w %s", tn)
+				case x < 98:
+					// a change iterator requested on a table this transaction does not hold
+					if tabs == "m" || tabs == "a" {
+						g.add("changes %s", map[string]string{"m": "a", "a": "m"}[tabs])
+					} else {
+						g.add("inited w %s", tn)
+					}
 				case x < 100 && withIters && len(openIters) < 3 && strings.Contains(tabs, tn):
 					// an iterator created in the middle of a transaction, after some of its writes,
 					// and asked for changes through that very transaction
@@ -1497,6 +1510,9 @@ func (e *tableExec) do(o *Out, f []string) string {
 		e.dones = append(e.dones, done)
 		e.doneInfo = append(e.doneInfo, tn+" "+f[2])
 		e.txnRef.t(tn).pending = append(e.txnRef.t(tn).pending, f[2])
+		if got, want := strings.Join(e.tbl(tn).PendingInitializers(e.db.ReadTxn()), ","), strings.Join(e.committed.t(tn).pending, ","); got != want {
+			o.Fail("C02", "uncommitted-write-visible", map[string]string{"index": "init"}, fmt.Sprintf("a fresh snapshot shows pending initializers [%s] of table %s while the registering transaction is still open; committed: [%s]", got, tn, want))
+		}
 		return fmt.Sprintf("d%d", len(e.dones)-1)
 	case "initdone":
 		i, _ := strconv.Atoi(f[1])
@@ -1552,6 +1568,16 @@ func (e *tableExec) do(o *Out, f []string) string {
 			return "bad-op"
 		}
 		it, err := e.tbl(tn).Changes(e.wtxn)
+		if !strings.Contains(e.wtables, tn) {
+			// registering a delete tracker is a write to the table: refused on a table not held
+			if err == nil {
+				o.Fail("C05", "write-to-a-table-not-held-accepted", map[string]string{"op": "changes"}, fmt.Sprintf("Changes() on table %s succeeded through a write transaction that holds only %q", tn, e.wtables))
+				o.Fail("C03", "wrong-error", map[string]string{"op": "changes"}, fmt.Sprintf("Changes() on table %s not held by the transaction returned no error", tn))
+				it.Close()
+				return "accepted"
+			}
+			return errName(err)
+		}
 		if err != nil {
 			return errName(err)
 		}
@@ -2245,6 +2271,9 @@ func (e *tableExec) abortBattery(o *Out) {
 		ok, _ := e.tbl(tn).Initialized(rtx)
 		if ok != (len(e.committed.t(tn).pending) == 0) {
 			o.Fail("C02", "abort-left-a-trace", map[string]string{"index": "init"}, fmt.Sprintf("table %s Initialized=%v after Abort", tn, ok))
+		}
+		if got, want := strings.Join(e.tbl(tn).PendingInitializers(rtx), ","), strings.Join(e.committed.t(tn).pending, ","); got != want {
+			o.Fail("C02", "abort-left-a-trace", map[string]string{"index": "init"}, fmt.Sprintf("table %s has pending initializers [%s] after Abort, the committed state has [%s]", tn, got, want))
 		}
 	}
 }
